@@ -1,214 +1,9 @@
-(* More effect lemmas for the C04 proof: the thread of the event, guards implied by acceptance, flush,
-   and the observer side. *)
+(* C04 effect lemmas for the observer obs_step on the fields the C04 monitor reads. *)
 From Coq Require Import List ZArith NArith Bool Lia.
 From RecordUpdate Require Import RecordSet.
 From PC.Base Require Import Assoc.
 From PC.Sup Require Import Model Monitors Tactics Sim ObsFacts Effects RelCore LemC04.
 Import ListNotations RecordSetNotations.
-
-(* the thread of the event *)
-Definition thr_eff (s : sys) (th : tid) (e : event) (s' : sys) : Prop :=
-  (pend (get_thread s th) = None -> pk (pend (get_thread s' th)) = pk_next e) /\
-  (dpc (get_thread s th) = DNone -> e <> EShutdownCall -> dpc (get_thread s' th) = DNone) /\
-  (has th (thinst s) = true -> apc (get_thread s th) = ANone -> apc (get_thread s' th) = ANone).
-
-Ltac thr_tac :=
-  unfold thr_eff; destr_state; sup_simpl;
-  (split; [intros ?Hp|split; [intros ?Hd ?Hne|intros ?Hh ?Ha]]);
-  try (exfalso; match goal with H : _ <> EShutdownCall |- _ => apply H; reflexivity end);
-  try congruence;
-  unfold get_thread in *; sup_simpl; cbn -[get Assoc.set N.eqb] in *; sup_simpl; cbn -[get Assoc.set N.eqb] in *; rewrite ?N.eqb_refl; cbn -[get Assoc.set N.eqb];
-  try reflexivity; try congruence;
-  try (match goal with H : pend _ = None |- _ => rewrite H end; reflexivity);
-  try (repeat match goal with |- context[if ?b then _ else _] => destruct b end; reflexivity).
-
-Lemma own_thr s th e s' : step_own s th e = Some s' -> thr_eff s th e s'.
-Proof. intros H. destruct e; kind_cases H; thr_tac.
-Qed.
-Lemma reg_thr s th e s' : step_reg s th e = Some s' -> thr_eff s th e s'.
-Proof. intros H. destruct e; kind_cases H; thr_tac. Qed.
-Lemma stop_thr s th e s' : step_stop s th e = Some s' -> thr_eff s th e s'.
-Proof. intros H. destruct e; kind_cases H; thr_tac.
-
-Qed.
-Lemma state_thr s th i s0 s' : step_state s th i s0 = Some s' -> thr_eff s th (EState i s0) s'.
-Proof. intros H. kind_cases H; thr_tac. Qed.
-Lemma procend_thr s th i s0 b s' : step_procend s th i s0 b = Some s' -> thr_eff s th (if b then EProcEnd i s0 else EProcEnded i s0) s'.
-Proof. intros H. destruct b; kind_cases H; thr_tac. Qed.
-Lemma ordered_thr s th i s' : step_ordered_go s th i = Some s' -> thr_eff s th (EOrderedGo i) s'.
-Proof. intros H. kind_cases H; thr_tac. Qed.
-Lemma env_thr s th e s' : step_env s th e = Some s' -> thr_eff s th e s'.
-Proof. intros H. destruct e; kind_cases H; thr_tac. Qed.
-Lemma shutdown_thr s th e s' : step_shutdown s th e = Some s' -> thr_eff s th e s'.
-Proof. intros H. destruct e; kind_cases H; try thr_tac.
-  now rewrite Ha.
-Qed.
-Lemma api_thr s th e s' : step_api s th e = Some s' -> thr_eff s th e s'.
-Proof. intros H. destruct e; kind_cases H; thr_tac.
-  all: match goal with H1 : has _ _ = true, H2 : negb (has _ _) = true |- _ => rewrite H1 in H2; discriminate H2 end.
-Qed.
-
-Lemma core_thr s th e s' : step_core s th e = Some s' -> thr_eff s th e s'.
-Proof.
-  intros H. destruct (step_core_kind _ _ _ _ H) as [? ?|i x ? ? ? ? ? ?|Hk|Hk|Hk|i s0 ? Hk|i s0 b ? Hk|Hk|i ? Hk|Hk|Hk]; subst.
-  - repeat split; auto. intros Hp. now rewrite Hp.
-  - repeat split; auto. intros Hp. unfold get_thread in *. cbn. now rewrite Hp.
-  - now apply reg_thr.
-  - now apply api_thr.
-  - now apply stop_thr.
-  - now apply state_thr.
-  - now apply procend_thr.
-  - now apply shutdown_thr.
-  - now apply ordered_thr.
-  - now apply env_thr.
-  - now apply own_thr.
-Qed.
-
-
-
-(* ---- guards implied by acceptance ---- *)
-Ltac own_break H :=
-  cbn in H; unfold step_own, own_inst in H; break_step H;
-  repeat match goal with E : (match _ with _ => _ end) = Some _ |- _ => break_step E end;
-  repeat match goal with E : (_, _) = (_, _) |- _ => injection E as ? ?; subst end.
-
-Lemma core_pre s th e s' c : step_core s th e = Some s' -> cl_pre e = Some c ->
-  exists i x, get th (thinst s) = Some i /\ get i (insts s) = Some x /\ cl (pc x) = c.
-Proof.
-  intros H Hc. destruct e; cbn in Hc; try discriminate Hc; injection Hc as <-; own_break H; subst;
-  (do 2 eexists; split; [first [eassumption|reflexivity]|split; [eassumption|]]);
-  match goal with E : pc _ = _ |- _ => rewrite E end; reflexivity.
-Qed.
-
-Lemma g_waitret s th c s' : step_core s th (EWaitReturn c) = Some s' ->
-  exists i x, get th (thinst s) = Some i /\ get i (insts s) = Some x /\ exited x = Some c.
-Proof.
-  intros H. own_break H. subst.
-  do 2 eexists; split; [first [eassumption|reflexivity]|split; [eassumption|]].
-  destruct (exited _) as [c'|]; cbn in *; [|discriminate].
-  match goal with E : Z.eqb _ _ = true |- _ => apply Z.eqb_eq in E; now subst end.
-Qed.
-
-Lemma g_cmdexit s th i c s' : step_core s th (ECmdExit i c) = Some s' ->
-  exists x, get i (insts s) = Some x /\ alive x = true.
-Proof. intros H. cbn in H. break_step H. eauto. Qed.
-
-Lemma g_runret s th c s' : step_core s th (ERunReturn c) = Some s' -> wg s = 0 /\ c = proj_code s.
-Proof.
-  intros H. cbn in H. break_step H. split_andb. apply Nat.eqb_eq in H0. auto.
-Qed.
-
-Lemma g_sdcall s th s' : step_core s th EShutdownCall = Some s' ->
-  apc (get_thread s th) = AShutdown \/
-  exists i x c, get th (thinst s) = Some i /\ get i (insts s) = Some x /\ pc x = ITriggered c.
-Proof.
-  intros H. cbn in H. unfold own_inst in H. break_step H.
-  destruct (apc (get_thread s th)); auto; right;
-    destruct (get th (thinst s)) as [ii|] eqn:Eii; try discriminate;
-    destruct (get ii (insts s)) as [xx|] eqn:Exx; try discriminate;
-    destruct (pc xx) eqn:Ep; try discriminate; eauto 6.
-Qed.
-
-Lemma g_sdorder s th l s' : step_core s th (EShutdownOrder l) = Some s' -> dpc (get_thread s th) = DBegun.
-Proof. intros H. unfold step_core, step_shutdown in H. break_step H.
-reflexivity. Qed.
-
-Lemma g_begin s th i s' : step_core s th (EBegin i) = Some s' ->
-  exists x, get i (insts s) = Some x /\ get th (thinst s) = None /\ get th (threads s) = None /\
-            (forall t j, get t (thinst s) = Some j -> j <> i).
-Proof.
-  intros H. unfold step_core in H. break_step H. split_andb. unfold has in *.
-  destruct (get th (thinst s)) eqn:E3; [discriminate|]. destruct (get th (threads s)) eqn:E4; [discriminate|].
-  eexists; repeat split; eauto using forallb_thinst_neq.
-Qed.
-
-(* ---- flush ---- *)
-Lemma flush_spec th s :
-  thinst (flush th s) = thinst s /\
-  (forall j, match get j (insts s) with
-             | Some x => exists x', get j (insts (flush th s)) = Some x' /\ pc x' = pc x /\ alive x' = alive x /\ exited x' = exited x
-             | None => get j (insts (flush th s)) = None end) /\
-  (forall th', get_thread (flush th s) th' = if N.eqb th th' then get_thread s th <| pend := None |> else get_thread s th') /\
-  wg (flush th s) = (match pk (pend (get_thread s th)) with PW => pred (wg s) | _ => wg s end) /\
-  code_set (flush th s) = (match pk (pend (get_thread s th)) with PC _ => true | _ => code_set s end) /\
-  proj_code (flush th s) = (match pk (pend (get_thread s th)) with PC c => if code_set s then proj_code s else c | _ => proj_code s end).
-Proof.
-  split; [apply flush_thinst|]. split.
-  { intros j. pose proof (flush_insts th s j) as H. destruct (get j (insts s)) as [x|]; [|exact H].
-    destruct H as (x' & E & L). exists x'. unfold inst_latch_le in L. intuition congruence. }
-  unfold flush, get_thread. destruct (get th (threads s)) as [t|] eqn:Et.
-  2:{ cbn. repeat split. intros th'. destruct (N.eqb_spec th th'); [subst; now rewrite Et|reflexivity]. }
-  destruct (pend t) as [r|] eqn:Ep.
-  2:{ cbn. repeat split. intros th'. destruct (N.eqb_spec th th'); [subst; rewrite Et; destruct t; cbn in *; now subst|reflexivity]. }
-  split.
-  { intros th'. destruct r; unfold apply_release; try destruct (code_set _); sup_simpl; cbn -[get N.eqb];
-      rewrite ?get_set; destruct (N.eqb th th'); reflexivity. }
-  destruct r; unfold apply_release; sup_simpl; cbn; try (repeat split; reflexivity).
-  destruct (code_set s) eqn:Ec; cbn; repeat split; auto.
-Qed.
-
-(* ---- none-case of the instance map ---- *)
-Definition none_eff (s : sys) (th : tid) (e : event) (s' : sys) : Prop :=
-  forall j, get j (insts s) = None -> (forall n, e <> ENewInst j n) -> get j (insts s') = None.
-
-Ltac none_tac :=
-  intros jj Hjj Hnn;
-  repeat (sup_simpl; match goal with |- context[insts ?X] =>
-    match X with
-    | match ?b with _ => _ end => destruct b eqn:?
-    | if ?b then _ else _ => destruct b eqn:?
-    end end);
-  sup_simpl; cbn -[get Assoc.set N.eqb]; sup_simpl; cbn -[get Assoc.set N.eqb];
-  repeat match goal with
-  | |- context[N.eqb ?a jj] => destruct (N.eqb_spec a jj); [subst|]
-  end; try congruence; try (rewrite Hjj; reflexivity).
-
-Lemma fold_upd_inst_none (f : inst -> inst) l : forall s j, get j (insts s) = None ->
-  get j (insts (fold_left (fun s i => upd_inst i f s) l s)) = None.
-Proof.
-  induction l as [|a l IH]; intros s j Hj; cbn; [exact Hj|]. apply IH. rewrite insts_upd_inst, Hj. now destruct (N.eqb a j).
-Qed.
-
-Lemma own_none s th e s' : step_own s th e = Some s' -> none_eff s th e s'.
-Proof. intros H. unfold none_eff. destruct e; kind_cases H; none_tac. Qed.
-Lemma reg_none s th e s' : step_reg s th e = Some s' -> none_eff s th e s'.
-Proof. intros H. unfold none_eff. destruct e; kind_cases H; none_tac.
-  rewrite get_set. destruct (N.eqb_spec i jj); [subst; exfalso; eapply Hnn; reflexivity|exact Hjj].
-Qed.
-Lemma api_none s th e s' : step_api s th e = Some s' -> none_eff s th e s'.
-Proof. intros H. unfold none_eff. destruct e; kind_cases H; none_tac. Qed.
-Lemma stop_none s th e s' : step_stop s th e = Some s' -> none_eff s th e s'.
-Proof. intros H. unfold none_eff. destruct e; kind_cases H; none_tac. Qed.
-Lemma state_none s th i s0 s' : step_state s th i s0 = Some s' -> none_eff s th (EState i s0) s'.
-Proof. intros H. unfold none_eff. kind_cases H; none_tac. Qed.
-Lemma procend_none s th i s0 b s' : step_procend s th i s0 b = Some s' -> none_eff s th (if b then EProcEnd i s0 else EProcEnded i s0) s'.
-Proof. intros H. unfold none_eff. destruct b; kind_cases H; none_tac. Qed.
-Lemma ordered_none s th i s' : step_ordered_go s th i = Some s' -> none_eff s th (EOrderedGo i) s'.
-Proof. intros H. unfold none_eff. kind_cases H; none_tac. Qed.
-Lemma env_none s th e s' : step_env s th e = Some s' -> none_eff s th e s'.
-Proof. intros H. unfold none_eff. destruct e; kind_cases H; none_tac. Qed.
-Lemma shutdown_none s th e s' : step_shutdown s th e = Some s' -> none_eff s th e s'.
-Proof. intros H. unfold none_eff. destruct e; kind_cases H; try none_tac.
-  now apply fold_upd_inst_none.
-Qed.
-
-Lemma core_none s th e s' : step_core s th e = Some s' -> none_eff s th e s'.
-Proof.
-  intros H. destruct (step_core_kind _ _ _ _ H) as [? ?|i x ? ? ? ? ? ?|Hk|Hk|Hk|i s0 ? Hk|i s0 b ? Hk|Hk|i ? Hk|Hk|Hk]; subst.
-  - intros j Hj _. exact Hj.
-  - intros j Hj _. exact Hj.
-  - now apply reg_none.
-  - now apply api_none.
-  - now apply stop_none.
-  - now apply state_none.
-  - now apply procend_none.
-  - now apply shutdown_none.
-  - now apply ordered_none.
-  - now apply env_none.
-  - now apply own_none.
-Qed.
-
-
 
 (* ---- observer side ---- *)
 Lemma oi_upd_triggers i f o : o_triggers (oi_upd i f o) = o_triggers o.
